@@ -1,7 +1,7 @@
 (* C19 — Multipart codec round trip, truthful size, reader termination.
    Only statements; each closed by `exact` of a lemma proved in Proofs/. *)
 From AV Require Import Lib.Base Generated.MultipartGen Model.Multipart Model.MultipartSpec
-  Proofs.MultipartSize Proofs.MultipartTerm Proofs.MultipartRoundtrip.
+  Proofs.MultipartSize Proofs.MultipartTerm Proofs.MultipartRoundtrip Proofs.MultipartBase64.
 Open Scope N_scope.
 
 (* ------------------------------------------------------------------ truthful size *)
@@ -105,3 +105,31 @@ Theorem C19_readline_loop_terminates_refuted :
     (forall fuel, lines_loop fuel 0 false [] p s = Err EFuel).
 Proof. exact readline_loop_spins. Qed.
 Print Assumptions C19_readline_loop_terminates_refuted.
+
+(* ------------------------------------------------------------------ base64 quartet alignment *)
+
+(* Full statement wanted: every chunk read_chunk returns before the end of a base64 part holds a multiple of
+   four base64 characters (so that each chunk can be decoded on its own, as BodyPartReaderPayload.write and
+   BaseRequest.post do).  REFUTED on the faithful model: when the first stream read delivers a single content
+   byte, read_chunk(8192) returns that byte.  Witness replayed on the implementation:
+   corpus/C19/base64_short_read.json (known finding C19-base64-short-read). *)
+Theorem C19_base64_alignment_refuted :
+  exists p s d p' s', p_b64 p = true /\ read_chunk chunk_size p s = Ok (d, p', s') /\
+                      p_at_eof p' = false /\ d = [89] /\ count_b64 d mod 4 = 1.
+Proof. exact base64_alignment_refuted. Qed.
+Print Assumptions C19_base64_alignment_refuted.
+
+(* What holds instead, for every chunk, requested size and part state: _align_base64_chunk cuts at a quartet
+   edge whenever the chunk it hands back holds at least one whole quartet.  The extra hypothesis
+   [4 <= count_b64 c] is exactly what the short read violates. *)
+Theorem C19_base64_quartets_partial : forall chunk size p c p',
+  align_base64 chunk size p = (c, p') -> at_end p = false -> 4 <= count_b64 c -> count_b64 c mod 4 = 0.
+Proof. exact align_base64_quartets. Qed.
+Print Assumptions C19_base64_quartets_partial.
+
+Example C19_base64_example :
+  let p := new_part [45; 45; 66] None true 100 in
+  at_end p = false /\
+  align_base64 [89; 87; 74; 106; 13; 10; 90; 71; 86] 8192 p = ([89; 87; 74; 106; 13; 10], p_set_carry [90; 71; 86] p).
+Proof. vm_compute. split; reflexivity. Qed.
+Print Assumptions C19_base64_example.
